@@ -434,6 +434,7 @@ func (t Table) Lookup(req *http.Request, trace string, pick picker, match matche
 					target.RedirectURL.Host == req.Host &&
 					target.RedirectURL.Path == req.URL.Path {
 					log.Print("[INFO] Skipping redirect with same scheme, host and path")
+					target = nil
 					continue
 				}
 			}
